@@ -76,6 +76,27 @@ TABLE.update({
  "C17-F": ("sim", "go test -vet=off -count=1 -run TestAnswerAfterFailedWrite ./sim/"),
 })
 
+TABLE.update({
+ "C01-G": ("data", "go test -vet=off -count=1 -run TestC01G ./data/"),
+ "C01-H": ("data", "go test -vet=off -count=1 -run TestC01H ./data/"),
+ "C02-G": ("data", "go test -vet=off -count=1 -run TestIDivModDemo ./data/"),
+ "C02-H": ("data", "go test -vet=off -count=1 -run TestCopyFromBlockDemo ./data/"),
+ "C03-G": ("data/cdata", "go test -vet=off -count=1 -run TestC03G ./data/cdata/"),
+ "C04-G": ("models", "go test -vet=off -count=1 -run TestC04G ./models/..."),
+ "C04-H": ("models", "go test -vet=off -count=1 -run TestC04H ./models/..."),
+ "C05-G": ("cmd/ow-sim", "go1.26.8 test -race -modfile=%(stub)s -vet=off -count=1 -run TestSpareOutputsDemo ./cmd/ow-sim/"),
+ "C05-H": ("models/rr", "go test -vet=off -count=1 -run TestGR4J ./models/rr/"),
+ "C06-G": ("models/rr", "go test -vet=off -count=1 -run TestC06G ./models/rr/"),
+ "C06-H": ("cmd/ow-sim", "go1.26.8 test -modfile=%(stub)s -vet=off -count=1 -run TestC06H ./cmd/ow-sim/"),
+ "C07-G": ("cmd/ow-sim", "go1.26.8 test -modfile=%(stub)s -vet=off -count=1 -run TestDemoC07G ./cmd/ow-sim/"),
+ "C07-H": ("cmd/ow-sim", "go1.26.8 test -modfile=%(stub)s -vet=off -count=1 -run TestDemoC07H ./cmd/ow-sim/"),
+ "C08-G": ("io", "go1.26.8 test -modfile=%(stub)s -vet=off -count=1 -run TestC08G ./io/"),
+ "C14-G": ("models/rr", "go test -vet=off -count=1 -run TestC14G ./models/rr/"),
+ "C14-H": ("models/routing", "go test -vet=off -count=1 -run TestC14H ./models/routing/"),
+ "C17-G": ("sim", "go test -vet=off -count=1 -run TestC17G ./sim/"),
+ "C17-H": ("sim", "go test -vet=off -count=1 -run TestC17H ./sim/"),
+})
+
 SUITE = "go build ./data/... ./util/... ./sim/... ./models/... ./conv/... ./libopenwater/ && go test -vet=off -count=1 ./data/... ./io/json/... ./util/..."
 
 def sh(cmd, cwd=WT):
